@@ -79,6 +79,8 @@ def make_scenario(rnd, counts, nues_choices=None, fault=None, opts=None):
             low = opts["low"]
         base = max(base, 1) if low == 0 else base
     msin_val = base * 10000 + low if msin_len >= 4 else low
+    if "msin_val" in opts and counts["pdu"] == 0:
+        msin_val = opts["msin_val"]      # an explicit subscriber number (registration-only runs: no PDU session identity is derived from it)
     msin = str(msin_val).zfill(msin_len)[-msin_len:]
     imsi = mcc + mnc + msin
     bits = opts.get("gnb_bits", rnd.choice([22, 24, 27, 32]))
